@@ -1,15 +1,147 @@
 (* C13 — OCSP messages round-trip and bind to the issuer's signature.
-   Property theorems only (closed by [exact]); model: model/C13.v. *)
+   Property theorems only (closed by [exact]); model: model/C13.v; proofs: proof/C13Proofs.v
+   (acceptance), proof/C13RoundTrip.v, proof/C13Request.v (round trips), proof/C13Determ.v.
+   [sigok] (the signature check of x509) and [pcert] (x509.ParseCertificate on the embedded
+   certificate) are universally quantified: every theorem holds for every such function. *)
 From Coq Require Import List NArith ZArith Bool.
 From Verif Require Import Harness DerTree DerPrim.
 From VerifGen Require Import C13_gen.
 From VerifModel Require Import C13.
-From VerifProof Require Import C13Proofs.
+From VerifProof Require Import C13Proofs C13RoundTrip C13Request C13Determ.
 Import ListNotations.
+Local Open Scope N_scope.
 
-Theorem C13_select_first_matching : forall s l w,
-  select_single (Some s) l = Some w ->
-  exists pre post, l = pre ++ w :: post /\ w_serial w = s /\
-                   Forall (fun x => w_serial x <> s) pre.
-Proof. exact select_first_matching. Qed.
-Print Assumptions C13_select_first_matching.
+(* ---- round trips ---- *)
+(* every BasicOCSPResponse value (any number of single responses, either responder id form,
+   optional version / next update / reason / extensions / certificates) that is built is read
+   back as exactly the values it was built from: the reader reduces to the acceptance step *)
+Theorem C13_response_roundtrip : forall sigok pcert b cert issuer,
+  good_basic b ->
+  parse_response_for_cert sigok pcert (build_response b) cert issuer =
+  accept_basic sigok pcert (pbasic_of b) cert issuer.
+Proof. exact response_roundtrip. Qed.
+Print Assumptions C13_response_roundtrip.
+
+(* CreateResponse then ParseResponse: same status, serial, update and revocation times, reason,
+   issuer hash, responder name, extensions; the signature checks are the premise *)
+Theorem C13_create_response_roundtrip :
+  forall sigok pcert tp keykind nh kh responder produced sg der tbs issuer,
+  good_template tp -> wfb responder = true -> name_shape responder = true -> good_time produced ->
+  create_response tp keykind nh kh responder produced sg = Some (der, tbs) ->
+  forall emb,
+    (forall alg,
+       check_signatures sigok pcert issuer alg tbs sg
+         (match tp_cert tp with Some c => [emit c] | None => [] end) = Some emb) ->
+  exists r,
+    parse_response sigok pcert der issuer = Acc r /\
+    p_status r = status_of_template (tp_status tp) /\
+    p_revoked r = (status_of_template (tp_status tp) =? 1) /\
+    p_serial r = tp_serial tp /\ p_this r = tp_this tp /\ p_next r = tp_next tp /\
+    p_revoked_at r = (if tp_status tp =? 1 then tp_revoked_at tp else zero_civil) /\
+    p_reason r = (if tp_status tp =? 1 then tp_reason tp else 0%Z) /\
+    p_hash r = (if tp_hash tp =? 0 then 3 else tp_hash tp) /\
+    p_rname r = emit responder /\ p_rkey r = [] /\ p_exts r = tp_exts tp /\
+    p_produced r = produced /\ p_tbs r = tbs /\ p_sig r = sg /\ p_cert r = emb.
+Proof. exact create_response_roundtrip. Qed.
+Print Assumptions C13_create_response_roundtrip.
+
+(* requests: what Request.Marshal / CreateRequest writes, ParseRequest reads back *)
+Theorem C13_request_roundtrip : forall r bs, marshal_request r = Some bs -> parse_request bs = Some r.
+Proof. exact request_roundtrip. Qed.
+Print Assumptions C13_request_roundtrip.
+
+Theorem C13_create_request_roundtrip : forall hash nh kh serial bs,
+  create_request hash nh kh serial = Some bs ->
+  parse_request bs = Some {| rq_hash := if hash =? 0 then 3 else hash; rq_namehash := nh;
+                             rq_keyhash := kh; rq_serial := serial |}.
+Proof. exact create_request_roundtrip. Qed.
+Print Assumptions C13_create_request_roundtrip.
+
+(* ---- acceptance binds the signature ---- *)
+(* accept with an issuer  =>  the signature that was checked covers exactly the TBSResponseData
+   bytes the returned fields were read from, under the issuer key, or under the key of the
+   first embedded certificate whose own TBS verifies under the issuer key *)
+Theorem C13_accept_binds_signature : forall sigok pcert bs cert ik r,
+  parse_response_for_cert sigok pcert bs cert (Some ik) = Acc r ->
+  exists rbytes pb,
+    unmarshal_struct parse_outer bs = Some (0%Z, ocsp_basic_oid, rbytes) /\
+    unmarshal_struct parse_basic rbytes = Some pb /\
+    p_tbs r = pb_tbs_raw pb /\ p_sig r = pb_sig pb /\
+    p_sigalg r = sigalg_of_oid (pb_sigoid pb) sigalg_oids /\
+    ((pb_certs pb = [] /\ p_cert r = None /\ sigok ik (p_sigalg r) (p_tbs r) (p_sig r) = true) \/
+     (exists c rest ci, pb_certs pb = c :: rest /\ p_cert r = Some c /\ pcert c = Some ci /\
+                        sigok (c_key ci) (p_sigalg r) (p_tbs r) (p_sig r) = true /\
+                        sigok ik (c_alg ci) (c_tbs ci) (c_sig ci) = true)).
+Proof. exact accept_binds_signature. Qed.
+Print Assumptions C13_accept_binds_signature.
+
+(* the TBS bytes are those of the first element of the BasicOCSPResponse, and the rest of the
+   structure (responder id, producedAt, single responses) is read from that element alone *)
+Theorem C13_tbs_is_first_element : forall rbytes pb,
+  unmarshal_struct parse_basic rbytes = Some pb ->
+  exists tbsn, wfb tbsn = true /\ pb_tbs_raw pb = emit tbsn /\
+               tbs_view tbsn = Some (pb_rid pb, pb_produced pb, pb_singles pb).
+Proof. exact unmarshal_basic_tbs. Qed.
+Print Assumptions C13_tbs_is_first_element.
+
+(* two accepted inputs with the same TBS bytes carry the same listed fields: changing any of
+   them means changing bytes the signature covers *)
+Theorem C13_accepted_bytes_determine_fields :
+  forall sigok1 pcert1 sigok2 pcert2 bs1 bs2 cert i1 i2 r1 r2,
+  parse_response_for_cert sigok1 pcert1 bs1 cert i1 = Acc r1 ->
+  parse_response_for_cert sigok2 pcert2 bs2 cert i2 = Acc r2 ->
+  p_tbs r1 = p_tbs r2 ->
+  p_status r1 = p_status r2 /\ p_serial r1 = p_serial r2 /\ p_revoked r1 = p_revoked r2 /\
+  p_produced r1 = p_produced r2 /\ p_this r1 = p_this r2 /\ p_next r1 = p_next r2 /\
+  p_revoked_at r1 = p_revoked_at r2 /\ p_reason r1 = p_reason r2 /\ p_hash r1 = p_hash r2 /\
+  p_rname r1 = p_rname r2 /\ p_rkey r1 = p_rkey r2 /\ p_exts r1 = p_exts r2.
+Proof. exact accepted_bytes_determine_fields. Qed.
+Print Assumptions C13_accepted_bytes_determine_fields.
+
+(* tamper rejection, with unforgeability of the issuer key as the premise: whatever is accepted
+   under the issuer has TBS bytes the issuer signed, or TBS bytes that verify under a
+   certificate whose TBS the issuer signed *)
+Theorem C13_tampering_rejected : forall sigok pcert ik (signed_by_issuer : bytes -> Prop) bs cert r,
+  (forall alg m s, sigok ik alg m s = true -> signed_by_issuer m) ->
+  parse_response_for_cert sigok pcert bs cert (Some ik) = Acc r ->
+  signed_by_issuer (p_tbs r) \/
+  (exists c ci, p_cert r = Some c /\ pcert c = Some ci /\ signed_by_issuer (c_tbs ci) /\
+                sigok (c_key ci) (p_sigalg r) (p_tbs r) (p_sig r) = true).
+Proof. exact tampering_rejected. Qed.
+Print Assumptions C13_tampering_rejected.
+
+(* ---- first matching serial ---- *)
+Theorem C13_first_matching_serial : forall sigok pcert bs s issuer r,
+  parse_response_for_cert sigok pcert bs (Some s) issuer = Acc r ->
+  exists rbytes pb pre w post,
+    unmarshal_struct parse_outer bs = Some (0%Z, ocsp_basic_oid, rbytes) /\
+    unmarshal_struct parse_basic rbytes = Some pb /\
+    pb_singles pb = pre ++ w :: post /\ w_serial w = s /\
+    Forall (fun x => w_serial x <> s) pre /\
+    p_serial r = s /\ p_this r = w_this w /\ p_next r = w_next w /\ p_exts r = w_exts w /\
+    p_status r = (if w_good w then 0 else if w_unknown w then 2 else 1).
+Proof. exact first_matching_serial. Qed.
+Print Assumptions C13_first_matching_serial.
+
+Theorem C13_no_cert_single : forall sigok pcert bs issuer r,
+  parse_response_for_cert sigok pcert bs None issuer = Acc r ->
+  exists rbytes pb w,
+    unmarshal_struct parse_basic rbytes = Some pb /\ pb_singles pb = [w] /\ p_serial r = w_serial w.
+Proof. exact no_cert_single. Qed.
+Print Assumptions C13_no_cert_single.
+
+(* non-vacuity: a concrete template goes through CreateResponse and is accepted *)
+Theorem C13_nonvacuous :
+  exists der tbs r,
+    create_response
+      {| tp_status := 1; tp_serial := 77%Z;
+         tp_this := {| cy := 2024; cmo := 2; cd := 29; ch := 23; cmi := 59; cs := 59 |};
+         tp_next := zero_civil;
+         tp_revoked_at := {| cy := 2023; cmo := 7; cd := 1; ch := 0; cmi := 0; cs := 1 |};
+         tp_reason := 1%Z; tp_hash := 0; tp_sigalg := 0; tp_exts := []; tp_cert := None |}
+      3 [1;2;3] [4;5;6] (Cons 0 16 []) {| cy := 2024; cmo := 3; cd := 1; ch := 0; cmi := 0; cs := 0 |} [9;9]
+    = Some (der, tbs) /\
+    parse_response (fun _ _ _ _ => true) (fun _ => None) der (Some 1) = Acc r /\
+    p_status r = 1 /\ p_serial r = 77%Z /\ p_tbs r = tbs.
+Proof. exact nonvacuous. Qed.
+Print Assumptions C13_nonvacuous.
